@@ -165,9 +165,10 @@ def MKids.push : MKids → Component → MNode → MKids
   | .nil, k, v => .cons k v .nil
   | .cons c n rest, k, v => .cons c n (rest.push k v)
 
+/-- `delete(n.children, key)`: the key is gone afterwards -/
 def MKids.erase : MKids → Component → MKids
   | .nil, _ => .nil
-  | .cons c n rest, k => if c = k then rest else .cons c n (rest.erase k)
+  | .cons c n rest, k => if c = k then rest.erase k else .cons c n (rest.erase k)
 
 /-- `memoryStoreNode.find` -/
 def MNode.find : MNode → Name → Option MNode
